@@ -5,6 +5,7 @@
  * new table file, every API result, and the layout at quiescent points.
  * White-box: the implementation translation unit is included. */
 #include "db_impl.c"
+#include "dumpfile.h"
 #include "common.h"
 #include "iowrap.h"
 #include <dirent.h>
@@ -305,6 +306,19 @@ int main(int argc, char **argv) {
              g_db ? (unsigned long long)g_db->versions->last_sequence : 0ULL);
     } else if (life_cmd(n, a)) {
       /* handled (and RET printed) by harness/k2_life.h */
+    } else if (!strcmp(a[0], "dumpall")) {
+      /* ldb_dump_file (dumpfile.c) on every file of the directory, output discarded: must terminate with a status */
+      DIR *d = opendir(g_dir); struct dirent *e; char path[1200]; FILE *sink = fopen("/dev/null", "w"); int nf = 0, bad = 0;
+      if (d) {
+        while ((e = readdir(d)) != NULL) {
+          if (e->d_name[0] == '.') continue;
+          snprintf(path, sizeof(path), "%s/%s", g_dir, e->d_name);
+          nf++; if (ldb_dump_file(path, sink) != LDB_OK) bad++;
+        }
+        closedir(d);
+      }
+      if (sink) fclose(sink);
+      printf("RET dumped=%d errors=%d\n", nf, bad);
     } else if (!strcmp(a[0], "layout")) {
       print_layout(); printf("RET 0\n");
     } else if (g_db == NULL) {
